@@ -1,3 +1,4 @@
+import os
 from vcheck import Check
 
 
@@ -87,6 +88,21 @@ class C37(Check):
                    "parsec_atomic_lock provides mutual exclusion for the five critical sections",
                    "callers follow the discipline of parsec_taskpool_enable / generated destructors: register and unregister "
                    "only pools whose taskpool_id came from parsec_taskpool_reserve_id, never reset by parsec_fini in between")
+
+    def correspond(self, cases, tag="cases"):
+        """lib/vcheck.py names the case file <id>-<tag>-<seed>.txt: two runs of this check at the same time (another
+        tier, another agent) overwrite each other's file between the harness run and the model run, and every
+        observation after the first difference of the two files is misaligned.  The file gets a name of its own
+        (tier + pid) and is removed when both sides agree on it."""
+        import vcheck
+        mytag = "%s-%s-%d" % (tag, self.tier, os.getpid())
+        impl, model = super().correspond(cases, mytag)
+        if impl == model:
+            try:
+                os.unlink(os.path.join(vcheck.CASES, "%s-%s-%d.txt" % (self.id, mytag, self.seed)))
+            except OSError:
+                pass
+        return impl, model
 
     # ------------------------------------------------------------------ generator
     def _lifecycle(self, r, rank, npools, first_pool=1, lookups=2):
